@@ -7,7 +7,7 @@ from ..core import hx, lst, WILD
 from ..ref import P, L, to32, le
 
 REQUIRED = ['S>=l', 'S+l', 'smallA:accept', 'smallA:reject', 'smallR', 'mixedA', 'cofactored-only', 'noncanon-R', 'noncanon-A',
-            'badkey', 'honest', 'prehash', 'legacy:S-range', 'validationvectors', 'R-undecodable', 'malleable-derived']
+            'badkey', 'honest', 'prehash', 'legacy:S-range', 'validationvectors', 'R-undecodable', 'malleable-derived', 'sk-wrapper']
 
 
 def okerr(x):
@@ -171,6 +171,33 @@ def mixed_order(ctx, n):
                 break
 
 
+def sk_wrappers(ctx, n):
+    """the SigningKey convenience verifiers must apply the same rules: signatures only the key holder can craft,
+    with R of small order (identity) and S = k*a, are accepted by verify and rejected by verify_strict"""
+    rng = ctx.rng
+    ident = ref.ed_compress(ref.IDENT)
+    for _ in range(n):
+        seed = vals.rb(rng, 32)
+        a, prefix = ref.ed_expand(seed)
+        Ab = ref.ed_public(seed)
+        msg = vals.rb(rng, rng.choice([0, 5, 40]))
+        k = k_of(ident, Ab, msg)
+        sig = ident + to32(k * a % L)
+        e = ref.ed_verify_predicate(Ab, msg, sig)
+        es = ref.ed_verify_predicate(Ab, msg, sig, strict=True)
+        ep = ref.ed_verify_predicate(Ab, None, sig, ph=vals.sha512(msg), ctx=b'')
+        ctx.add('sig.skverify', seed.hex(), hx(msg), sig.hex(), expect=[okerr(e), okerr(es), okerr(ep)], cls=['sk-wrapper', 'smallR'])
+        ctx.add('sig.verify', Ab.hex(), hx(msg), sig.hex(), expect=[okerr(e), okerr(es), okerr(e)], cls=['sk-wrapper', 'smallR'])
+        # and an honest signature / a corrupted one through the wrappers
+        hs = ref.ed_sign(seed, msg)
+        ctx.add('sig.skverify', seed.hex(), hx(msg), hs.hex(), expect=['ok', 'ok', 'err'], cls='sk-wrapper')
+        hp = ref.ed_sign(seed, None, ph=vals.sha512(msg), ctx=b'')
+        ctx.add('sig.skverify', seed.hex(), hx(msg), hp.hex(), expect=['err', 'err', 'ok'], cls='sk-wrapper')
+        s2 = le(hs[32:]) + L
+        ctx.add('sig.skverify', seed.hex(), hx(msg), (hs[:32] + to32(s2)).hex(), expect=['err', 'err', 'err'], cls=['sk-wrapper', 'S+l'],
+                only=nonlegacy)
+
+
 def validation_vectors(ctx, limit):
     from .. import build
     p = os.path.join(build.REPO, 'ed25519-dalek', 'VALIDATIONVECTORS')
@@ -188,6 +215,7 @@ def make(seed, size):
     small_order(ctx, max(6, size // 3))
     mixed_order(ctx, max(4, size // 4))
     validation_vectors(ctx, max(10, size // 2))
+    sk_wrappers(ctx, max(3, size // 8))
     return ctx
 
 
